@@ -531,9 +531,14 @@ class QuicConnection:
 
         :param now: The current time.
         """
-        if self._state in END_STATES or not self._network_paths:
-            # nothing to send when closing, or when a server has not processed
-            # an INITIAL packet yet and knows no network path
+        if self._state in END_STATES:
+            return []
+        if not self._network_paths:
+            # a server has not processed an INITIAL packet yet and knows no
+            # network path: there is nothing to send and nobody to notify
+            if self._close_pending:
+                self._close_pending = False
+                self._close_begin(is_initiator=True, now=now)
             return []
         network_path = self._network_paths[0]
 
